@@ -39,6 +39,8 @@ func checkC11(c *Ctx, r *Report) {
 	r.rule("C11.R4", "no wedge: Lock is followed by defer Unlock before anything that may panic, or the critical section cannot panic", 4)
 	r.rule("C11.R6", "every assignment to a map entry on the request path is into a map that some function of the module makes", 3)
 	r.rule("C11.R7", "the only 5xx answer of the handlers lies behind a failed read of the request body, and what is read is the request's own body: no code of the module replaces http.Request.Body (a size-limiting reader makes the read fail - and the handler answer 500 - for a long but valid request)", 1)
+	r.rule("C11.R8", "a recharging path parameter that is not of the form <ueId>_<ratingGroup> is answered 4xx: the parts of the parameter are used only where their number is known to be exactly two", 1)
+	r.rule("C11.R9", "no request can block on a lock its own call chain already holds (shared with C09.R3): such a request never returns and keeps its subscriber - and everybody queuing behind the lock - waiting", 1)
 	r.rule("C11.R5", "every problem status built in the API/processor is a 4xx constant", 8)
 
 	entries := httpEntries(c)
@@ -140,6 +142,10 @@ func checkC11(c *Ctx, r *Report) {
 
 	// ---- R6
 	checkMapWrites(c, r, reached, pred, "C11.R6")
+
+	// ---- R8: the recharging path parameter is <ueId>_<ratingGroup>: exactly two parts
+	c11RechargeParamShape(c, r, "C11.R8")
+	r.shareFrom(c, checkC09, map[string]string{"C09.R3": "C11.R9"})
 
 	// ---- R7
 	nBody := 0
@@ -1212,4 +1218,90 @@ func stringLenAtEntry(x ssa.Value, b *ssa.BasicBlock, seen map[*ssa.BasicBlock]b
 		length, have = l, true
 	}
 	return length, have
+}
+
+// c11RechargeParamShape (C11.R8): in RechargePut, the result of strings.Split(param, "_") is
+// indexed only where the dominating tests of its length admit exactly one length, 2.
+func c11RechargeParamShape(c *Ctx, r *Report, rule string) {
+	f := c.fn("internal/sbi", "Server.RechargePut")
+	var split *ssa.Call
+	eachInstr(f, func(_ *ssa.BasicBlock, _ int, ins ssa.Instruction) {
+		if call, ok := ins.(*ssa.Call); ok && split == nil {
+			if obj := calleeObj(&call.Call); obj != nil && obj.Pkg() != nil && obj.Pkg().Path() == "strings" && (obj.Name() == "Split" || obj.Name() == "SplitN") {
+				split = call
+			}
+		}
+	})
+	key := fnKey(f) + "|parts of rechargingInfo"
+	if split == nil {
+		r.info(rule, key, c.rel(f.Pos()), "the path parameter is not taken apart with strings.Split (C11.R2 covers the indexing of whatever is used)")
+		return
+	}
+	isLenOfSplit := func(v ssa.Value) bool {
+		call, ok := stripConv(v).(*ssa.Call)
+		if !ok {
+			return false
+		}
+		bi, ok := call.Call.Value.(*ssa.Builtin)
+		return ok && bi.Name() == "len" && len(call.Call.Args) == 1 && resolveMem(call.Call.Args[0]) == ssa.Value(split)
+	}
+	// first use of an element
+	var use ssa.Instruction
+	eachInstr(f, func(_ *ssa.BasicBlock, _ int, ins ssa.Instruction) {
+		if ia, ok := ins.(*ssa.IndexAddr); ok && use == nil && resolveMem(ia.X) == ssa.Value(split) {
+			use = ia
+		}
+	})
+	if use == nil {
+		r.info(rule, key, c.rel(f.Pos()), "no element of the split parameter is used")
+		return
+	}
+	admitted := []int64{}
+	for n := int64(0); n <= 8; n++ {
+		ok := true
+		for _, b := range f.Blocks {
+			if len(b.Instrs) == 0 || len(b.Succs) != 2 {
+				continue
+			}
+			iff, isIf := b.Instrs[len(b.Instrs)-1].(*ssa.If)
+			if !isIf {
+				continue
+			}
+			bo, isBo := iff.Cond.(*ssa.BinOp)
+			if !isBo {
+				continue
+			}
+			k, isK := constInt(bo.Y)
+			if !isK || !isLenOfSplit(bo.X) {
+				continue
+			}
+			var holds bool
+			switch bo.Op {
+			case token.EQL:
+				holds = n == k
+			case token.NEQ:
+				holds = n != k
+			case token.LSS:
+				holds = n < k
+			case token.LEQ:
+				holds = n <= k
+			case token.GTR:
+				holds = n > k
+			case token.GEQ:
+				holds = n >= k
+			default:
+				continue
+			}
+			for i, sc := range b.Succs {
+				if b.Succs[0] != b.Succs[1] && edgeDominates(b, sc, use.Block()) && holds != (i == 0) {
+					ok = false
+				}
+			}
+		}
+		if ok {
+			admitted = append(admitted, n)
+		}
+	}
+	exact := len(admitted) == 1 && admitted[0] == 2
+	r.check(exact, rule, key, posOf(c, use), "used only where the parameter has exactly two parts", fmt.Sprintf("the parts of the recharging parameter are used where it may have %v parts: a parameter such as <ueId>_1_2 is not of the form <ueId>_<ratingGroup>, yet it is accepted (answered 204, the recharge is performed) instead of being answered with a 4xx problem", admitted))
 }
